@@ -64,6 +64,22 @@ Additions for scoring/main.py (select_next_plate, score_chunk, ChunkedScoresHold
   `a[i] = v`, a : list   with cfg["index_error"] = tag: list_set, IndexError (Err tag) when i is outside -len..len-1
   cfg["coerce"]       [(from type, to type, template over {x})]: an upcast applied where the `to` type is needed
                       (subclass used as its base class), also pointwise under `list` and `dict`
+
+Additions for stateful callees (retrospective wrappers / smoothers; all fail closed):
+  cfg["state_calls"]   [(pattern, [state variables], template, value type, {hole: type})]: an assignment
+               `x = <pattern>` whose right-hand side both returns a value and updates state the Python text does not
+               show (the recorded rng / heappop answers consumed so far, a heap): the template denotes a
+               `result (T * S1 * ... * Sn)` and the statement becomes `dor (x, s1, ..., sn) <- template;` - it may raise.
+  cfg["return_state"]  [state variables]: every `return e` returns `(e, s1, ..., sn)`, the function's type is
+               `result (T * S1 * ... * Sn)` (the state the caller goes on with, e.g. the unread answers).
+  cfg["assign_effects"] [(statement pattern, state variable, template)]: an assignment STATEMENT that updates a declared state
+               variable in place, e.g. `selection_vector[__i] = True` -> `vor {state} (...)`; like cfg["effects"], for
+               statements that are not calls.
+  `while True:` with `break` / `continue` (only with cfg["while_fuel"] = name of a `nat` parameter): PyRt.res_while, recursion on
+               that explicit fuel over the tuple of carried variables; the body answers (go on?, state): `break` = false, end of
+               body / `continue` = true.  Running out of fuel is NOT a Python behaviour (Err 97): linking theorems are stated
+               for sufficient fuel.  Any other loop test, while/else, `return` inside are refused.
+  `break` in a `for` loop (default monad only): PyRt.res_fold_brk, the body answers (go on?, state) like a while body.
 """
 import ast
 
@@ -154,6 +170,11 @@ class Tr:
         self.effects = [(pat(p), var, tmpl) for p, var, tmpl in cfg.get("effects", [])]
         self.effect_calls = [(pat(p), var, st_t, val_t, parse_type(ty)) for p, var, st_t, val_t, ty in cfg.get("effect_calls", [])]
         self.eqb = cfg.get("eqb", {})
+        self.state_calls = [(pat(x[0]), list(x[1]), x[2], parse_type(x[3]), {h: parse_type(t) for h, t in (x[4] if len(x) > 4 else {}).items()})
+                            for x in cfg.get("state_calls", [])]
+        self.return_state = list(cfg.get("return_state", []))
+        spat = lambda p: Rename().visit(ast.parse(p)).body[0]
+        self.assign_effects = [(spat(p), var, tmpl) for p, var, tmpl in cfg.get("assign_effects", [])]
         # object attributes: {attr: (owner type, field type, getter template, setter template)}
         self.fields = {a: (parse_type(o), parse_type(t), g, st) for a, (o, t, g, st) in cfg.get("fields", {}).items()}
         self.coerce = {(parse_type(a), parse_type(b)): t for a, b, t in cfg.get("coerce", [])}
@@ -454,7 +475,19 @@ class Tr:
         for st in stmts:
             if self.is_ignored(st):
                 continue
-            if isinstance(st, ast.Assign):
+            if isinstance(st, ast.Assign) and any(self.unify(patn, st, {}) for patn, _v, _t in self.assign_effects):
+                for patn, var, _t in self.assign_effects:
+                    if self.unify(patn, st, {}):
+                        add(var)
+                        break
+            elif isinstance(st, ast.Assign):
+                for patn, svars, _t, _v, _a in self.state_calls:
+                    if self.unify(patn, st.value, {}):
+                        for n in svars:
+                            add(n)
+                for patn, var, _s, _v, _t in self.effect_calls:
+                    if self.unify(patn, st.value, {}):
+                        add(var)
                 for t in st.targets:
                     if self.field_target(t) is not None:      # x.attr = e rebinds x
                         add(self.field_target(t))
@@ -498,8 +531,13 @@ class Tr:
                         add(n)
                 if st.orelse:
                     raise Unsupported("for/else")
-            elif isinstance(st, (ast.Continue, ast.Raise, ast.Return)):
+            elif isinstance(st, (ast.Continue, ast.Raise, ast.Return, ast.Break)):
                 pass
+            elif isinstance(st, ast.While):
+                for n in self.assigned(st.body):
+                    add(n)
+                if st.orelse:
+                    raise Unsupported("while/else")
             elif isinstance(st, ast.With):
                 for n in [self.with_item(st)[0]] + self.assigned(st.body):
                     add(n)
@@ -527,7 +565,7 @@ class Tr:
 
     def always_jumps(self, stmts):
         for st in stmts:
-            if isinstance(st, (ast.Continue, ast.Raise, ast.Return)):
+            if isinstance(st, (ast.Continue, ast.Raise, ast.Return, ast.Break)):
                 return True
             if isinstance(st, ast.If) and st.orelse and self.always_jumps(st.body) and self.always_jumps(st.orelse):
                 return True
@@ -541,8 +579,8 @@ class Tr:
                 return True
             if isinstance(st, ast.With) and self.has_jump(st.body, kinds):
                 return True
-            if isinstance(st, ast.For):
-                inner = tuple(k for k in kinds if k is not ast.Continue)
+            if isinstance(st, (ast.For, ast.While)):
+                inner = tuple(k for k in kinds if k is not ast.Continue and k is not ast.Break)
                 if inner and self.has_jump(st.body, inner):
                     return True
         return False
@@ -562,6 +600,14 @@ class Tr:
                     raise Unsupported("raise template needs a variable that is not bound here: %s" % e)
         raise Unsupported("raise without a declared tag: " + txt[:100])
 
+    def bind_pat(self, names):
+        """a tuple pattern in the binder position of the monad's bind notation: Lib/Sexp's `dor x <- e; k` declares
+        `x pattern`, where a tuple is written without the quote that a `fun` binder needs"""
+        p = tuple_pat(names)
+        if p.startswith("'(") and self.M.get("bind_quote", "" if self.M["bind"] == "dor" else "'") == "":
+            return p[1:]
+        return p
+
     def bind_hoist(self, hoist, body, ind):
         out = ""
         for n, t in hoist:
@@ -580,9 +626,30 @@ class Tr:
         if isinstance(st, ast.AnnAssign) and isinstance(st.target, ast.Name) and st.value is not None and st.simple:
             st = ast.Assign(targets=[st.target], value=st.value)      # `x: T = e` is `x = e`
         if isinstance(st, ast.Assign):
+            for patn, var, tmpl in self.assign_effects:
+                binds = {}
+                if self.unify(patn, st, binds):
+                    if var not in env or env[var] == ("unit",):
+                        raise Unsupported("assignment effect on an unbound state variable: " + var)
+                    args = {kk[2:]: self.expr(v, env, hoist)[0] for kk, v in binds.items()}
+                    args["state"] = var
+                    return self.bind_hoist(hoist, "%slet %s := %s in\n" % (ind, var, tmpl.format(**args)), ind) + self.block(rest, env, k, ind)
             if len(st.targets) != 1:
                 raise Unsupported("multiple assignment: " + ast.unparse(st))
             tgt = st.targets[0]
+            for patn, svars, tmpl, vty, argtys in self.state_calls:
+                binds = {}
+                if isinstance(tgt, ast.Name) and self.unify(patn, st.value, binds):
+                    if any(v not in env or env[v] == ("unit",) for v in svars) or self.var_type(tgt.id) != vty:
+                        raise Unsupported("state call: " + ast.unparse(st))
+                    args = {}
+                    for kk, v in binds.items():
+                        a, at = self.expr(v, env, hoist)
+                        args[kk[2:]] = self.need(a, at, argtys[kk[2:]], hoist) if kk[2:] in argtys else a
+                    env2 = dict(env)
+                    env2[tgt.id] = vty
+                    txt = "%s%s %s <- %s;\n" % (ind, self.M["bind"], self.bind_pat([tgt.id] + svars), tmpl.format(**args))
+                    return self.bind_hoist(hoist, txt, ind) + self.block(rest, env2, k, ind)
             if isinstance(tgt, ast.Subscript) and isinstance(tgt.value, ast.Name):      # d[k] = v on a `dict T`
                 d = tgt.value.id
                 dt = env.get(d)
@@ -674,6 +741,10 @@ class Tr:
             return "%s%s\n" % (ind, self.raise_term(st, env))
         if isinstance(st, ast.Continue):
             return k(env, jump="continue")
+        if isinstance(st, ast.Break):
+            return k(env, jump="break")
+        if isinstance(st, ast.While):
+            return self.while_loop(st, rest, env, k, ind)
         if isinstance(st, ast.Return):
             if st.value is None:
                 st = ast.Return(value=ast.Constant(value=None))     # `return` is `return None`
@@ -699,8 +770,8 @@ class Tr:
                 tb = self.block(st.body + ([] if bj else rest), env, k, ind + "  ")
                 te = self.block(st.orelse + ([] if oj else rest), env, k, ind + "  ")
                 return self.bind_hoist(hoist, "%sif %s then\n%s%selse\n%s" % (ind, c, tb, ind, te), ind)
-            if self.has_jump(st.body + st.orelse, (ast.Continue, ast.Return)):
-                raise Unsupported("an if with a branch that may, but need not, continue/return: " + ast.unparse(st.test))
+            if self.has_jump(st.body + st.orelse, (ast.Continue, ast.Return, ast.Break)):
+                raise Unsupported("an if with a branch that may, but need not, continue/return/break: " + ast.unparse(st.test))
             allv = self.assigned(st.body + st.orelse)
             vs = [v for v in allv if v in env and env[v] != ("unit",)]
             both = [v for v in allv if v not in vs and v in self.plainly_assigned(st.body) and v in self.plainly_assigned(st.orelse)]
@@ -709,7 +780,7 @@ class Tr:
             ret = lambda env2, jump=None: "%s    %s %s\n" % (ind, self.M["ok"], tuple_term(vs)) if jump is None else self.unsupported("jump in if")
             tb = self.block(st.body, env, ret, ind + "    ")
             te = self.block(st.orelse, env, ret, ind + "    ")
-            txt = "%s%s %s <- (if %s then\n%s%s  else\n%s%s  );\n" % (ind, self.M["bind"], tuple_pat(vs), c, tb, ind, te, ind)
+            txt = "%s%s %s <- (if %s then\n%s%s  else\n%s%s  );\n" % (ind, self.M["bind"], self.bind_pat(vs), c, tb, ind, te, ind)
             env_after = dict(env)
             for v in both:
                 env_after[v] = self.var_type(v)
@@ -931,7 +1002,13 @@ class Tr:
                 env_body[n] = t
                 pre += "%s    let %s := %s in\n" % (ind, n, tv)
 
+        brk = self.has_jump(st.body, (ast.Break,))     # a `break` of THIS loop: the body answers (go on?, state)
+        if brk and self.M["type"] != "result":
+            raise Unsupported("break in a for loop under a non-default monad")
+
         def kbody(env2, jump=None):
+            if brk and (jump is None or jump in ("continue", "break")):
+                return "%s    Ok (%s, %s)\n" % (ind, "false" if jump == "break" else "true", tuple_term(carried))
             if jump is not None and jump != "continue":
                 raise Unsupported("jump out of a loop body")
             return "%s    %s %s\n" % (ind, self.M["ok"], tuple_term(carried))
@@ -942,12 +1019,45 @@ class Tr:
         if len(carried) == 1:
             spat = "(%s : %s)" % (carried[0], coq_type(env[carried[0]]))
         txt = "%s%s %s <- %s (fun %s %s =>\n%s%s%s  ) %s %s;\n" % (
-            ind, self.M["bind"], tuple_pat(carried), self.M["fold"], spat, xpat, pre, body, ind, xs, tuple_term(carried))
+            ind, self.M["bind"], self.bind_pat(carried), "res_fold_brk" if brk else self.M["fold"], spat, xpat, pre, body, ind, xs, tuple_term(carried))
         env_after = dict(env)
         for v in dropped:
             txt += "%slet %s := tt in\n" % (ind, v)   # poison: a later read is a type error
             env_after[v] = ("unit",)
         return self.bind_hoist(hoist, txt, ind) + self.block(rest, env_after, k, ind)
+
+    def while_loop(self, st, rest, env, k, ind):
+        """`while True:` left only by `break` (or an exception): PyRt.res_while on the explicit fuel cfg["while_fuel"]"""
+        fuel = self.cfg.get("while_fuel")
+        if not (isinstance(st.test, ast.Constant) and st.test.value is True) or st.orelse:
+            raise Unsupported("while loop other than `while True:` without else")
+        if fuel is None or env.get(fuel) != ("nat",) or self.M["type"] != "result":
+            raise Unsupported("while loop without a declared fuel parameter of type nat")
+        if self.has_jump(st.body, (ast.Return,)):
+            raise Unsupported("return inside a loop")
+        body_assigned = self.assigned(st.body)
+        bound = lambda v: v in env and env[v] != ("unit",)
+        carried = [v for v in body_assigned if bound(v)]
+        dropped = [v for v in body_assigned if not bound(v)]
+
+        def kbody(env2, jump=None):
+            if jump is None or jump == "continue":
+                return "%s    Ok (true, %s)\n" % (ind, tuple_term(carried))
+            if jump == "break":
+                return "%s    Ok (false, %s)\n" % (ind, tuple_term(carried))
+            raise Unsupported("jump out of a loop body")
+
+        body = self.block(st.body, dict(env), kbody, ind + "    ")
+        spat = tuple_pat(carried) if carried else "(_ : unit)"
+        if len(carried) == 1:
+            spat = "(%s : %s)" % (carried[0], coq_type(env[carried[0]]))
+        txt = "%s%s %s <- res_while %s (fun %s =>\n%s%s  ) %s;\n" % (
+            ind, self.M["bind"], self.bind_pat(carried), fuel, spat, body, ind, tuple_term(carried))
+        env_after = dict(env)
+        for v in dropped:
+            txt += "%slet %s := tt in\n" % (ind, v)   # poison: a later read is a type error
+            env_after[v] = ("unit",)
+        return txt + self.block(rest, env_after, k, ind)
 
     # ---- whole function
     def function(self, f):
@@ -971,15 +1081,24 @@ class Tr:
             pre += "%slet %s : %s := %s in\n" % (ind, n, coq_type(env[n]), v)
 
         def kfun(env2, jump=None):
+            if isinstance(jump, tuple) and jump[0] == "return" and self.return_state:
+                if any(v not in env2 or env2[v] == ("unit",) for v in self.return_state):
+                    raise Unsupported("return_state variable not bound at a return")
+                return "%s  %s (%s)\n" % (ind, self.M["ok"], ", ".join([jump[1]] + self.return_state))
             if isinstance(jump, tuple) and jump[0] == "return":
                 return "%s  %s %s\n" % (ind, self.M["ok"], jump[1])
             if jump is None and cfg.get("implicit_return") is not None:
                 return "%s  %s %s\n" % (ind, self.M["ok"], cfg["implicit_return"].format(**{v[:-len(SUFFIX)]: v for v in env2 if v.endswith(SUFFIX)}))
             raise Unsupported("function may end without a return" if jump is None else "continue outside a loop")
 
+        rtype = coq_type(self.ret_type)
+        if self.return_state:
+            if cfg.get("implicit_return") is not None or any(v not in env for v in self.return_state):
+                raise Unsupported("return_state needs declared state parameters and explicit returns")
+            rtype = "(%s)" % " * ".join([rtype] + [coq_type(env[v]) for v in self.return_state])
         self.rewrite_runs(f.body)
         body = self.block(list(f.body), env, kfun, ind)
-        return "Definition %s %s : %s %s :=\n%s%s." % (cfg["name"], " ".join(params), self.M["type"], coq_type(self.ret_type), pre, body.rstrip("\n"))
+        return "Definition %s %s : %s %s :=\n%s%s." % (cfg["name"], " ".join(params), self.M["type"], rtype, pre, body.rstrip("\n"))
 
 
 def find_function(tree, name, cls=None):
